@@ -17,7 +17,7 @@ def mix(*parts) -> int:
 
 
 class Tape:
-    __slots__ = ("values", "pos", "rng", "replay", "overrun")
+    __slots__ = ("values", "pos", "rng", "replay", "overrun", "trace")
 
     def __init__(self, seed=None, values=None):
         if values is not None:
@@ -30,9 +30,16 @@ class Tape:
             self.rng = random.Random(seed if isinstance(seed, int) else mix(seed))
         self.pos = 0
         self.overrun = 0
+        self.trace = None  # when a list: (label, n, value) of every draw (for enumeration)
 
     def draw(self, n: int, label: str = "") -> int:
         """Integer in [0, n)."""
+        v = self._draw(n, label)
+        if self.trace is not None:
+            self.trace.append((label, n, v))
+        return v
+
+    def _draw(self, n: int, label: str = "") -> int:
         if n <= 1:
             v = 0
             # still consume a slot so that shrinking by zeroing keeps alignment
